@@ -123,7 +123,7 @@ def check_packed_simd(sf):
         if found.get(k) != exp:
             raise TransErr('packed_simd.rs: impl_shared!(%s, ..) is %r, the translator assumes %r'
                            % (k, found.get(k), exp))
-    text = ' '.join(t[1] for t in toks)
+    text = ' '.join(t[1] for t in toks).replace('$ ', '$')
     needed = [
         'pub fn mul32 ( self , rhs : u32x8 ) -> u64x4 { unsafe { core :: arch :: x86_64 :: _mm256_mul_epu32 ( self . 0 , rhs . 0 ) . into ( ) } }',
         'core :: arch :: x86_64 :: _mm256_set_epi32 ( x7 as i32 , x6 as i32 , x5 as i32 , x4 as i32 , x3 as i32 , x2 as i32 , x1 as i32 , x0 as i32 , )',
@@ -233,10 +233,9 @@ class VecTranslator(limbir.Translator):
             for x in v.lanes:
                 if isinstance(x, Int):
                     lanes.append(limbir.Translator.materialize(self, x))
-                elif isinstance(x, Half):
-                    lanes.append(x)
                 else:
-                    lanes.append(limbir.Translator.materialize(self, self.lane32(x, None)))
+                    # Half / MaskOf / XorPair / MaskedXor only mention atomic values: keep them symbolic
+                    lanes.append(x)
             return Vec(v.kind, v.rep, lanes)
         if isinstance(v, Into):
             return Into(self.materialize(v.v))
@@ -414,6 +413,13 @@ class VecTranslator(limbir.Translator):
         if isinstance(v, Into):
             raise TransErr('`.into()` stored into a non-vector place', line)
         limbir.Translator.store(self, pl, v, env, line)
+
+    def ev_repeat(self, e, env):
+        x = self.eval(e[2], env)
+        if isinstance(x, Vec) and all(isinstance(l, Int) and l.e[0] == 'c' for l in x.lanes):
+            n = self.const_of(self.eval(e[3], env), e[1], 'array length')
+            return Arr([Vec(x.kind, x.rep, list(x.lanes)) for _ in range(n)])
+        return limbir.Translator.ev_repeat(self, e, env)
 
     def ev_unsafe(self, e, env):
         return self.eval_block(e[2], env)
